@@ -7,6 +7,7 @@ import (
 	"encoding/json"
 	"fmt"
 	"regexp"
+	"sort"
 	"strconv"
 	"strings"
 	"time"
@@ -210,6 +211,13 @@ func c20Run(r *vkit.Run) {
 	for k := range c20Keyword {
 		dict = append(dict, k)
 	}
+	// the same words in other letter cases are ordinary names (label names are case-sensitive)
+	for _, k := range append([]string(nil), dict...) {
+		if up := strings.ToUpper(k); up != k && !strings.ContainsAny(k, "./ ") {
+			dict = append(dict, up, strings.ToUpper(k[:1])+k[1:])
+		}
+	}
+	sort.Strings(dict)
 	for _, k := range dict {
 		idx++
 		if r.Mine(idx) && !r.Stop() {
